@@ -21,6 +21,7 @@ go build -o "$tmp/vmerge" ./cmd/vmerge
 # the extra build configurations (their first build is the slow part of a cold quick run)
 go test -c -vet=off -tags debug -o "$tmp/c03-debug.test" ./c03/ || { echo "setup: c03 does not build with -tags debug" >&2; exit 1; }
 go test -c -vet=off -tags debug -o "$tmp/c10-debug.test" ./c10/ || { echo "setup: c10 does not build with -tags debug" >&2; exit 1; }
+go test -c -vet=off -tags debug -o "$tmp/c11-debug.test" ./c11/ || { echo "setup: c11 does not build with -tags debug" >&2; exit 1; }
 go test -c -vet=off -tags verif -o "$tmp/c19-verif.test" ./c19/ || echo "setup: note: c19 does not build with -tags verif (hooks missing?) - the check falls back to the untagged build"
 go test -c -vet=off -tags verif -race -o "$tmp/c19-race.test" ./c19/ || go test -c -vet=off -race -o "$tmp/c19-race.test" ./c19/ || { echo "setup: c19 does not build with -race" >&2; exit 1; }
 echo "setup ok"
